@@ -1185,7 +1185,7 @@ func gen(r *Rng, tier string, emit Emit) {
 		}
 		emit("P", "p_roundtrip", H(b), "x")
 		emit("P", "p_paths", H(b))
-		if len(b) <= 8192 && !hasFlashSig(b) {
+		if len(b) <= 8193 {
 			emitTables(emit, b)
 			emit("C", "xpaths", H(b))
 			emit("C", "dirsave", H(b))
@@ -1201,6 +1201,10 @@ func gen(r *Rng, tier string, emit Emit) {
 		img := genFlashImage(r.Fork(uint64(2000000 + i)))
 		emit("P", "p_roundtrip", H(img), "id")
 		emit("P", "p_paths", H(img))
+		// model of the flash level (Model/ExtractFlash.v): path list and directory-route bytes
+		emitTables(emit, img)
+		emit("C", "xpaths", H(img))
+		emit("C", "dirsave", H(img))
 	}
 	for it := 0; it < n; it++ {
 		rr := r.Fork(uint64(it))
